@@ -3,10 +3,8 @@ CONSTANTS
   Bulks = {1,2,3,4,5,6,7,8,9,10,11,12,13,14,15,16,17,18,19,20,21,22,23,24}
   MaxCrash = 0
   Fixed = TRUE
-  SkipFsync = FALSE
+  SkipFsync = TRUE
 VIEW TraceView
 INVARIANT NoForeignBytes
-INVARIANT AckedDurable
-PROPERTY TraceAckDurable
 POSTCONDITION TraceAccepted
 CHECK_DEADLOCK FALSE
